@@ -11,7 +11,7 @@ THEOREMS = ["Rsp.Props.C12.run_inv", "Rsp.Props.C12.retries_bounded_and_spaced",
 RULE = ("the REAL clientwr thread of every server, stepped one scheduling at a time under a virtual clock (pthread_cond_timedwait replaced by a park/step handshake): "
         "RetryCount 0..10 x RetryInterval 1..60 x four status-server modes x reliable/unreliable fake transports, schedules of {time advance to expiry-1/expiry/expiry+1, "
         "spurious wake-up, reply, connection reset, probe}; compared on transmissions with virtual timestamps, slot tries/expiry, loss counters, mode switches and the "
-        "wait bound. non-trivial = history in which a request was abandoned or retransmitted")
+        "wait bound; plus servers discovered by a lookup command (op dynconf): which RetryCount/RetryInterval the discovered server ends up with for every combination of set-in-the-printed-block / set-in-the-template-block / not-set (dtls, tcp). non-trivial = history in which a request was abandoned or retransmitted")
 EXHAUSTIVE = {}
 ASSUMPTIONS = ["real condition-variable timing and thread start-up are not exhibited: a pass happens when the harness releases the parked thread (partial: runtime timing)",
                "the clock is the virtual clock read through gettimeofday"]
@@ -78,8 +78,34 @@ def gen_run(exe, rng, tier):
     return WH.run_parallel(exe, rng, 160 if tier == "quick" else 4000, build_one)
 
 
+def dynconf_case(rng):
+    """a server discovered by an external lookup command: the RetryCount/RetryInterval it is retried with are those its printed block
+    sets, else the template block's, else the transport's defaults (the real adddynamicrealmserver .. confserver_cb .. mergesrvconf ..
+    compileserverconfig path)"""
+    from rspcheck import Case
+    ttype = rng.choice([3, 3, 3, 2])                       # dtls (RetryCount 0..10) mostly; tcp (RetryCount must be 0)
+    opt = lambda vals: rng.choice(vals) if rng.random() < 0.5 else None
+    trc, tri = opt([0, 1, 4, 10] if ttype == 3 else [0]), opt([1, 2, 9, 30, 60])
+    brc, bri = opt([0, 2, 3, 7, 10] if ttype == 3 else [0]), opt([1, 3, 7, 25, 60])
+    btype = ttype if rng.random() < 0.5 else None
+    block = b"server dynamic {\n  host 127.0.0.1:1\n"
+    lines = []
+    if btype is not None:
+        lines.append(b"  type %s\n" % (b"dtls" if btype == 3 else b"tcp"))
+    if brc is not None:
+        lines.append(b"  RetryCount %d\n" % brc)
+    if bri is not None:
+        lines.append(b"  RetryInterval %d\n" % bri)
+    rng.shuffle(lines)
+    block += b"".join(lines) + b"}\n"
+    f = lambda v: "-" if v is None else str(v)
+    return Case("dynconf %s %s %s . T%d,%d,%d B%s,%s,%s" % (b"tmplsecret".hex(), rng.choice([b"bob@example.org", b"a@b.c"]).hex(), block.hex(), ttype,
+                                                           255 if trc is None else trc, 255 if tri is None else tri, f(btype), f(brc), f(bri)),
+                kind="dynconf-retry", transmitted=2, only_one=int((brc is None) != (bri is None)))
+
+
 def gen(rng, tier):
-    return []
+    return [dynconf_case(rng) for _ in range(150 if tier == "quick" else 4000)]
 
 
 def nontrivial(c):
